@@ -180,7 +180,14 @@ func SafeDiv[T Integer](x T, y T) (T, error) {
 		return 0, ierrors.WithMessagef(ErrIntegerDivisionByZero, "%d / %d", x, y)
 	}
 
-	return x / y, nil
+	result := x / y
+
+	// The quotient of two negative numbers is positive unless it wrapped around (MinInt / -1).
+	if x < 0 && y < 0 && result < 0 {
+		return 0, ierrors.WithMessagef(ErrIntegerOverflow, "%d / %d", x, y)
+	}
+
+	return result, nil
 }
 
 func SafeLeftShift[T Integer](val T, shift uint8) (T, error) {
